@@ -148,6 +148,9 @@ fn variants(rng: &mut Rng, k: u32) -> Vec<(&'static str, String)> {
         ("shared-pipe-end", format!("gen {} {k} 4096 2 0 | {{ tally 64 <&3 >t1 & tally 300 <&3 >t2; wait; }} 3<&0; cat t1 t2 | {{ IFS=' =' read a n1 b s1 c q1; IFS=' =' read a n2 b s2 c q2; echo $((n1+n2)) $((s1+s2)) $((q1+q2)); }}", 150000 + k)),
 ("stop-cont", format!("{{ nap 30; echo done{k} >sc{k}; exit 3; }} & p=$!; kill -s STOP $p; kill -s CONT $p; wait $p; echo \"?=$?\"; cat sc{k}")),
         ("stop-cont", "{ nap 100000; } & p=$!; kill -s STOP $p; kill -s TERM $p; kill -s CONT $p; wait $p; echo \"?=$?\"".to_string()),
+        // a `$PWD` that names another existing file is not trusted: `pwd` falls back
+        // on the working directory itself
+        ("stale-pwd", format!("cd d; echo x >pf{k}; o=$PWD; PWD=$PWD/pf{k}; q=$(pwd); echo \"${{q##*/}}\"; PWD=${{o%/*}}; q=$(pwd); echo \"${{q##*/}}\"; PWD=$o; cd ..; echo \"?=$?\"")),
         // job control without a terminal: the job list follows the stop and the
         // continuation of a job (what `wait` reports for stopped / continued children)
         ("job-stop-cont", format!("set -m; {{ nap 400; echo never >jn{k}; }} & kill -s STOP %1; nap 40; jobs; kill -s CONT %1; nap 40; jobs; kill -s TERM %1; wait %1; echo \"?=$?\"; set +m")),
